@@ -45,11 +45,10 @@ Theorem C09_decoding_preserves_value :
 Proof. exact dec_rel. Qed.
 Print Assumptions C09_decoding_preserves_value.
 
-(* ... and equivalent traces get the same decision, rate, reason and key from EVERY rule set whose
-   configured integers are exactly representable as float64 (|y| < 2^53) ... *)
+(* ... and equivalent traces get the same decision, rate, reason and key from EVERY rule set ... *)
 Theorem C09_rules_encoding_invariant :
   forall fmtv parsef rx ds draw rules t1 t2,
-    wtrace_rel t1 t2 -> Forall rule_small rules ->
+    wtrace_rel t1 t2 ->
     run_rules fmtv parsef rx ds draw (dec_trace t1) O rules =
     run_rules fmtv parsef rx ds draw (dec_trace t2) O rules.
 Proof. exact encoding_invariant. Qed.
@@ -62,15 +61,6 @@ Theorem C09_key_encoding_invariant :
     key_of fmtf fields use_len (dec_trace t1) = key_of fmtf fields use_len (dec_trace t2).
 Proof. exact key_encoding_invariant. Qed.
 Print Assumptions C09_key_encoding_invariant.
-
-(* The restriction on configured integers is necessary (residual divergence of the real code,
-   see notes/C09.md): field value 2^53 against `= 2^53+1` matches as float64, not as int64. *)
-Theorem C09_big_config_integer_refuted :
-  exists fmtv parsef rx c z,
-    dy_trunc (dy_norm z 0) = z /\
-    cmatch fmtv parsef rx c (Some (SInt z)) <> cmatch fmtv parsef rx c (Some (SF64 (dy_norm z 0))).
-Proof. exact big_config_integer_differs. Qed.
-Print Assumptions C09_big_config_integer_refuted.
 
 (* ---------- non-vacuity: one trace sent two ways ---------- *)
 Definition exf (d : dy) : string := "1.5".
@@ -89,16 +79,15 @@ Definition ex_c09_rules : list rule :=
       r_sampler := false |}].
 
 Example C09_nonvacuous :
-  wtrace_rel ex_a ex_b /\ Forall rule_small ex_c09_rules /\
+  wtrace_rel ex_a ex_b /\
   run_rules exf (fun _ => None) (fun _ => None) (fun _ => None) (fun _ => 0) (dec_trace ex_b) O ex_c09_rules =
     {| o_rate := 7; o_keep := true; o_reason := "rules/span/ok"; o_key := "" |} /\
   key_of exf ["status"; "root.dur"] true (dec_trace ex_b) = key_of exf ["status"; "root.dur"] true (dec_trace ex_a).
 Proof.
-  split; [|split; [|split]].
+  split; [|split].
   - split; [|cbn; repeat constructor; cbn; unfold small; repeat split; try reflexivity; vm_compute; try reflexivity; try discriminate].
     repeat constructor; cbn; unfold small; repeat split; try reflexivity; try (vm_compute; reflexivity); try (vm_compute; discriminate).
     all: intros; vm_compute; reflexivity.
-  - repeat constructor.
   - vm_compute. reflexivity.
   - vm_compute. reflexivity.
 Qed.
